@@ -445,6 +445,90 @@ def search_lookupdocs(ctx, k):
       return
 
 
+# ---- directed stream: trigger-formula DATA columns whose formula handles exceptions ---------------------------------
+# A trigger formula that catches exceptions (IFERROR / try-except) and reads a formula column that is still dirty must be
+# postponed like any other cell (the pending OrderError is re-raised after the user code swallowed it), so its stored
+# value does not depend on whether its work item ran before or after the column it reads.
+
+TRIGGER_FORMS = [
+  ('IFERROR($%(f)s * 2, -1)', lambda t, p: 2 * t),
+  ('try:\n  return $%(f)s + 1\nexcept Exception:\n  return -1', lambda t, p: t + 1),
+  ('IFERROR($%(f)s, 0) + $Price', lambda t, p: t + p),
+  ('try:\n  x = $%(f)s\nexcept Exception:\n  x = -5\nreturn x * 3', lambda t, p: 3 * t),
+]
+
+
+def gen_triggerdoc(rng):
+  f = rng.choice(['Total', 'Z', 'T9'])
+  names = rng.sample(['Audit', 'Charged', 'A1', 'B', 'Mark'], rng.choice([1, 2]))
+  trig = [(nm, rng.randrange(len(TRIGGER_FORMS))) for nm in names]
+  rows = []
+  bundles = []
+  for _ in range(rng.choice([1, 2, 3])):
+    k = rng.choice([1, 1, 2, 3])
+    vals = [(rng.choice([1, 2, 10, 7]), rng.choice([0, 1, 3, 5])) for _i in range(k)]
+    rows += vals
+    if k == 1 and rng.random() < 0.6:
+      bundles.append([['AddRecord', 'Orders', None, {'Price': vals[0][0], 'Qty': vals[0][1]}]])
+    else:
+      bundles.append([['BulkAddRecord', 'Orders', [None] * k, {'Price': [v[0] for v in vals], 'Qty': [v[1] for v in vals]}]])
+  return {'stream': 'triggerdoc', 'f': f, 'trig': [list(x) for x in trig], 'bundles': bundles, 'rows': [list(x) for x in rows]}
+
+
+def triggerdoc_script(w):
+  f = w['f']
+  script = [[['AddTable', 'Orders', [{'id': 'Price', 'type': 'Int', 'isFormula': False},
+                                     {'id': 'Qty', 'type': 'Int', 'isFormula': False},
+                                     {'id': f, 'type': 'Int', 'isFormula': True, 'formula': '$Price * $Qty'},
+                                     {'id': 'Zz', 'type': 'Int', 'isFormula': True, 'formula': '$Price + 1'}]]]]
+  for nm, k in w['trig']:
+    script.append([['AddColumn', 'Orders', nm, {'type': 'Int', 'isFormula': False, 'formula': TRIGGER_FORMS[k][0] % {'f': f},
+                                                'recalcWhen': 0, 'recalcDeps': None}]])
+  return script + copy.deepcopy(w['bundles'])
+
+
+def run_triggerdoc(w):
+  """Engine order against the reference values, then against permuted orders.  None or (kind, description)."""
+  script = triggerdoc_script(w)
+  exp = {w['f']: [p * q for p, q in w['rows']], 'Zz': [p + 1 for p, q in w['rows']]}
+  for nm, k in w['trig']:
+    exp[nm] = [TRIGGER_FORMS[k][1](p * q, p) for p, q in w['rows']]
+  def go():
+    e, _ = G.new_doc()
+    for b in script:
+      G.apply(e, b)
+    return G.snapshot(e, tables=['Orders'])['Orders']['cols']
+  try:
+    got = ST.limited2(go)
+  except ST.Timeout:
+    return 'nontermination', 'recalculation did not terminate within the time limit'
+  except Exception as x:
+    return 'exception', 'the document raised %r' % (x,)
+  for c in sorted(exp):
+    if got.get(c) != exp[c]:
+      return 'trigger_handler_order', ('engine order: column %s holds %r, expected %r (no error occurs anywhere: %s = $Price * '
+                                       '$Qty; trigger formulas %r; bundles %r)' % (
+                                         c, got.get(c), exp[c], w['f'],
+                                         [(nm, TRIGGER_FORMS[k][0] % {'f': w['f']}) for nm, k in w['trig']], w['bundles']))
+  diff = compare_runs(script, w.get('pseeds', []))
+  if diff:
+    return ('nontermination' if 'did not terminate' in diff[2] else 'order_dependent'), diff[2] + \
+      '; trigger formulas %r' % ([(nm, TRIGGER_FORMS[k][0] % {'f': w['f']}) for nm, k in w['trig']],)
+  return None
+
+
+def search_triggerdocs(ctx, k):
+  for _ in range(ctx.n(12, 250)):
+    w = gen_triggerdoc(ctx.rng)
+    w['pseeds'] = [ctx.rng.randrange(1 << 30) for _ in range(k)]
+    ctx.count(('triggerdoc', repr(w)), nontrivial=True, kind='search:trigger column with handler')
+    bad = run_triggerdoc(w)
+    if bad:
+      ctx.violation(bad[0], bad[1], w)
+    if too_many_hangs(ctx) or sum(1 for v in ctx.violations if v['kind'] == 'trigger_handler_order') > 5:
+      return
+
+
 def _index_order_matcher(v, entry):
   """Only: a lookup keyed on a column that is itself computed through a lookup (the engine brings lookup indexes up to
   date in name order, not in dependency order)."""
@@ -482,7 +566,8 @@ def search(ctx):
       return
   ctx.log('search: histories done')
   search_lookupdocs(ctx, k)
-  ctx.log('search: lookup documents done')
+  search_triggerdocs(ctx, k)
+  ctx.log('search: lookup and trigger documents done')
   # (a') edit sequences that create and break reference cycles (which cell is flagged depends on the order)
   for _ in range(ctx.n(25, 250)):
     script = cycle_break_script(ctx.rng)
@@ -571,6 +656,9 @@ def replay(ctx, w):
     return replay_tie(w)
   if w.get('stream') == 'lookupdoc':
     bad = run_lookupdoc(w)
+    return bad[1] if bad else None
+  if w.get('stream') == 'triggerdoc':
+    bad = run_triggerdoc(w)
     return bad[1] if bad else None
   if w.get('stream') == 'script':
     script = w['script']
